@@ -30,7 +30,7 @@ OUTDIR = WORK if SCRATCH else VERIF
 KDIR = os.path.join(VERIF, "kani")
 FEATURES = "std,pratt,extension,either,unstable"
 WORKERS = int(os.environ.get("VERIF_WORKERS", "12"))
-HARNESS_TIMEOUT = {"quick": 420, "thorough": 900}
+HARNESS_TIMEOUT = {"quick": 700, "thorough": 1500}
 
 sys.path.insert(0, VERIF)
 
@@ -389,10 +389,17 @@ def load_known():
     return {"findings": [], "fixed": []}
 
 
-def tier_of(name):
-    """quick = every harness except the larger-bound variants (`_t`); the zero-sized-error instances (`_zst`)
-    are cheap and part of quick."""
+QUICK_MAX_REGISTERED_S = 240
+
+
+def tier_of(name, entry=None):
+    """quick = every harness except the larger-bound variants (`_t`) and the few whose solver time at
+    registration exceeds QUICK_MAX_REGISTERED_S (they would risk the per-harness time limit on a slower or
+    busier machine; a time-out is undecided, never an alarm, but a check one runs on every change should not
+    be undecided); the zero-sized-error instances (`_zst`) are cheap and part of quick. thorough = all."""
     if re.search(r"_t$", name) or "_thorough" in name:
+        return "thorough"
+    if entry is not None and (entry.get("time") or 0) > QUICK_MAX_REGISTERED_S:
         return "thorough"
     return "quick"
 
@@ -589,7 +596,7 @@ def harnesses_for(pid, tier, reg, cat):
                 continue
         elif not tags:
             continue
-        if tier == "quick" and tier_of(n) != "quick":
+        if tier == "quick" and tier_of(n, e) != "quick":
             continue
         if os.environ.get("VERIF_ONLY") and not re.search(os.environ["VERIF_ONLY"], n):
             continue  # maintenance: restrict a self-test run to the named harnesses (never set by the registered commands)
@@ -619,6 +626,7 @@ def decide(pid, tier, seed):
     kf_other = [f for f in known.get("findings", []) if f["property"] != pid]
     reported_elsewhere = []
     names = harnesses_for(pid, tier, reg, cat)
+    deferred = [n for n in harnesses_for(pid, "thorough", reg, cat) if n not in names] if tier == "quick" else []
     log(f"{pid} [{tier}]: {len(names)} Kani harnesses, {WORKERS} workers")
     results = run_pool(names, cat, tier)
 
@@ -804,6 +812,7 @@ def decide(pid, tier, seed):
             "explanation": assumptions.EXPLAIN.get(pid, ""),
             "kani_harnesses": len(names),
             "kani_harnesses_run": names,
+            "harnesses_left_to_the_thorough_tier": deferred,
             "kani_automatic_checks_total": auto_total,
             "covers_total": covers_total,
             "covers_satisfied": covers_sat,
